@@ -3,7 +3,13 @@
 
 package ldb
 
-import "massnet.org/mass-wallet/masswallet/db"
+import (
+	"github.com/syndtr/goleveldb/leveldb"
+	"github.com/syndtr/goleveldb/leveldb/filter"
+	"github.com/syndtr/goleveldb/leveldb/opt"
+	"github.com/syndtr/goleveldb/leveldb/storage"
+	"massnet.org/mass-wallet/masswallet/db"
+)
 
 // VerifRawIterate calls fn for every raw key/value pair of the underlying
 // LevelDB store in key order (verification harness only; read-only).
@@ -19,4 +25,20 @@ func VerifRawIterate(d db.DB, fn func(k, v []byte)) bool {
 		fn(append([]byte{}, iter.Key()...), append([]byte{}, iter.Value()...))
 	}
 	return true
+}
+
+// VerifOpenStorage opens a LevelDB backend over an arbitrary goleveldb storage
+// (for instance an in-memory one) with a small write buffer, so that the
+// verification harness can create thousands of short-lived instances. All
+// transaction/bucket logic is the unmodified code of this package.
+func VerifOpenStorage(stor storage.Storage, writeBuffer int) (db.DB, error) {
+	ldb, err := leveldb.Open(stor, &opt.Options{
+		Filter:      filter.NewBloomFilter(10),
+		WriteBuffer: writeBuffer,
+		BlockSize:   32 * opt.KiB,
+	})
+	if err != nil {
+		return nil, err
+	}
+	return &LevelDB{ldb: ldb}, nil
 }
